@@ -706,6 +706,9 @@ func c14GenParam(r *VRand, fname string, subject func() string, inv int, stats *
 		return c14Param{Key: "regex", Val: c14Pick(r, c14BadRegex)}
 	}
 	k := r.Intn(10)
+	if fname != "name" && k >= 3 && k < 6 {
+		k = 0 // no keyword: on subtag: exact instead
+	}
 	switch {
 	case k < 3:
 		stats.Inc("param.exact")
@@ -1004,6 +1007,33 @@ func TestVerifC14(t *testing.T) {
 			nmem = strings.Count(strings.Fields(fa)[1], ",") + 1
 		}
 		fmt.Fprintf(side, "fa valid=%v lens=%d/%d nodes=%d members=%d via=%s\n", valid, len(g.Filter), len(g.FilterAnnotation), len(nodes), nmem, via)
+		if !valid && len(g.Filter) == len(g.FilterAnnotation) {
+			// would per-node (lazy) evaluation have reached the invalid item?  Measures how many
+			// generated cases are sensitive to the defect fixed by 367c759.
+			reached := false
+		lazy:
+			for _, d := range pool.set.dialers {
+				for j, f := range g.Filter {
+					hit, err := pool.set.filterHit(d, f)
+					if err != nil {
+						reached = true
+						break lazy
+					}
+					if hit {
+						if _, err := dialer.NewAnnotation(g.FilterAnnotation[j]); err != nil {
+							reached = true
+							break lazy
+						}
+						break
+					}
+				}
+			}
+			if reached {
+				stats.Inc("invalid_def.reached_by_per_node_evaluation")
+			} else {
+				stats.Inc("invalid_def.NOT_reached_by_per_node_evaluation")
+			}
+		}
 		switch {
 		case strings.HasPrefix(fa, "err "):
 			stats.Inc("result.error." + strings.Fields(fa)[1])
@@ -1055,7 +1085,7 @@ func TestVerifC14(t *testing.T) {
 
 	nPools := 2500
 	if VThorough() {
-		nPools = 60000
+		nPools = 30000
 	}
 	for pi := 0; pi < nPools; pi++ {
 		nodes := c14GenPool(r, stats)
